@@ -6,9 +6,14 @@
 #include <setjmp.h>
 #include <signal.h>
 #include "vtrace.h"
+#include <unistd.h>
+#include <sys/time.h>
+#include <time.h>
 
 static sigjmp_buf jb; static volatile sig_atomic_t in_call = 0;
 static void on_abrt(int s) { (void)s; if (in_call) siglongjmp(jb, 1); _exit(3); }
+static volatile int g_hung = 0;
+static void on_alrm(int s) { (void)s; if (in_call) { g_hung = 1; siglongjmp(jb, 1); } }
 
 static long g_id = 0; static const char *g_f = "";
 static H3Index g_cells[64]; static int g_ncells = 0;
@@ -162,12 +167,16 @@ int main(int argc, char **argv) {
     if (argc < 5) return 2;
     long n = atol(argv[1]), start = atol(argv[3]); uint64_t seed = strtoull(argv[2], 0, 10);
     vt_out = fopen(argv[4], start ? "a" : "w"); if (!vt_out) return 2;
-    signal(SIGABRT, on_abrt);
+    signal(SIGABRT, on_abrt); signal(SIGVTALRM, on_alrm);
     for (g_id = start; g_id < n; g_id++) {
         vt_seed(seed * 1000003ULL + (uint64_t)g_id * 7919ULL);       /* every call is reproducible from (seed, id) */
         in_call = 1;
+        g_hung = 0; { struct itimerval it = {{0, 0}, {120, 0}}; setitimer(ITIMER_VIRTUAL, &it, NULL); }   /* 120 s of CPU time in one call: a Hang event */
+        clock_t c0 = clock();
         if (sigsetjmp(jb, 1) == 0) one_call();
-        else { fprintf(vt_out, "{\"e\":\"Abort\",\"id\":%ld,\"f\":\"%s\"}\n", g_id, g_f); signal(SIGABRT, on_abrt); }
+        else { fprintf(vt_out, "{\"e\":\"%s\",\"id\":%ld,\"f\":\"%s\"}\n", g_hung ? "Hang" : "Abort", g_id, g_f); signal(SIGABRT, on_abrt); signal(SIGVTALRM, on_alrm); }
+        { struct itimerval it = {{0, 0}, {0, 0}}; setitimer(ITIMER_VIRTUAL, &it, NULL); }
+        if (getenv("VERIF_SLOW") && (double)(clock() - c0) / CLOCKS_PER_SEC > 0.5) fprintf(stderr, "SLOW id=%ld f=%s %.2fs\n", g_id, g_f, (double)(clock() - c0) / CLOCKS_PER_SEC);
         in_call = 0;
         if ((g_id & 1023) == 0) fflush(vt_out);
     }
